@@ -13,6 +13,10 @@ GROUPS = [
           defines=["WIDTH=2"], unwind=11, checks=CH, timeout=900, bounded="command 'dd d dd' with symbolic decimal digits; both byte orders"),
 ]
 GROUPS += [g for g in _c05.GROUPS if "Memory.write16" in g.name or "Memory.write1[" in g.name or "MemoryPage" in g.name]
+GROUPS.append(Group(name="C19/naken_util.main[bounded]", unity="C19/u_utilmain.cpp", entry="h_utilmain",
+                    functions=[("main", "main/naken_util.cpp", "harness, bounded (T11 drops the unused #include <string>)"), ("String::*", "common/String.cpp", "real callee")],
+                    defines=["VERIF_PURE_BODY=;"], unwind=16, checks=CH, timeout=1500, tier="thorough",
+                    bounded="command lines of 1..3 arguments taken from a 9-word vocabulary (the options that take a value, -bin, a CPU name, two numbers, a file name); standard input at end of file"))
 LEVEL = "other"
 EXPLANATION = ("Bounded model checking (CBMC, complete unwinding for the stated string lengths) of the real command parsers and write commands, plus the bounded Memory "
                "byte-map/16-bit round-trip checks shared with C05; strings are unbounded in the tool, so no unbounded proof is claimed.")
